@@ -402,7 +402,9 @@ class World:
         self.P = self.parsers[0]
         self.XPathContext = XPathContext
         self.root1 = XPathContext(ET.ElementTree(ET.XML(DOC1))).root
-        self.root2 = XPathContext(ET.ElementTree(ET.XML(DOC2))).root
+        import xml.etree.ElementTree as PyET
+        # second tree: xml.etree (not lxml), element root (no document node)
+        self.root2 = XPathContext(PyET.XML(DOC2)).root
         self.nodes = []          # (python node, token string)
         self.root3 = XPathContext(ET.ElementTree(ET.XML(DOC3))).root
         for root, is_root in ((self.root1, True), (self.root2, False), (self.root3, False)):
@@ -745,6 +747,10 @@ def impl_instance(W: World, pyval, st_text, xsd11, c=0) -> str:
     try:
         tk = W.parser(xsd11, c).parse(f'$v instance of {st_text}')
         r = tk.evaluate(W.XPathContext(W.root1, variables={'v': v}))
+        # the other public evaluation path of the same token must give the same answer
+        r2 = list(tk.select(W.XPathContext(W.root1, variables={'v': v})))
+        if r2 != [r]:
+            return f'SELECT!=EVALUATE:{r2!r}'
         return 'T' if r is True else ('F' if r is False else f'?{r!r}')
     except Exception as e:
         return err_text(e)
@@ -836,7 +842,13 @@ def judge_cases(run: Run, W: World, cases, label='judgement'):
         if a['fk'] == '1':
             tags.append('F18k')
             st.count('type-argument-kind-test')
-        if im != a['match'] or (spec is not None and im != spec):
+        # INTERIM (until branch fix-c18-4 is in the reference tree): the model describes the repaired map / array
+        # matching; where the specification gives no verdict (static-error names) a judgement of the F18i region
+        # cannot be attributed and is skipped
+        interim_skip = spec is None and a['fi'] == '1'
+        if interim_skip:
+            st.count('interim:F18i-region-without-spec(skipped)')
+        elif im != a['match'] or (spec is not None and im != spec):
             run.disagree(Disagreement(dict(case, op='match_sequence_type'), im, a['match'], spec,
                                       what='match_sequence_type', site='sequence_types.match_sequence_type', tags=tags))
         if x == 1 and c == 0 and len(vt) % 3 == 0:
@@ -868,6 +880,8 @@ def judge_cases(run: Run, W: World, cases, label='judgement'):
                 ('treat as', it, a['treat'], 'treat-as', 'evaluate__treat_expression', spec),
                 ('function parameter', ip, a['param'], 'function-parameter', '_InlineFunction.__call__.get_argument', pspec)):
             if got is None:
+                continue
+            if interim_skip:
                 continue
             if op == 'function parameter' and got == 'E:XPST0003' and (a['fpp'] == '1' or ty[0] == 'F'):
                 # the declaration `function($g as T)` itself is rejected by the parser (F18p family): nothing is judged
@@ -1489,12 +1503,11 @@ def signatures(run: Run, W: World):
     st = run.stats
     total = parsed = called = ok = 0
     unmatched, status = [], {}
-    skip = {'fn:doc': 'needs a resolvable URI', 'fn:doc-available': 'needs a resolvable URI', 'fn:collection': 'needs a collection',
+    skip = {'fn:doc': 'needs a resolvable URI', 'fn:collection': 'needs a collection',
             'fn:uri-collection': 'needs a collection', 'fn:unparsed-text': 'reads a resource', 'fn:unparsed-text-lines': 'reads a resource',
-            'fn:unparsed-text-available': 'reads a resource', 'fn:environment-variable': 'reads the environment',
-            'fn:available-environment-variables': 'reads the environment', 'fn:json-doc': 'reads a resource',
+            'fn:json-doc': 'reads a resource',
             'fn:load-xquery-module': 'not applicable to XPath', 'fn:transform': 'needs an XSLT processor',
-            'fn:trace': 'writes a trace', 'fn:error': 'always raises', 'fn:put': 'not applicable'}
+            'fn:error': 'always raises', 'fn:put': 'not applicable'}
     for (qname, arity), sig in sorted(P.function_signatures.items(), key=lambda kv: (kv[0][0].qname, kv[0][1])):
         total += 1
         key = f'{qname.qname}#{arity}'
@@ -1513,6 +1526,7 @@ def signatures(run: Run, W: World):
         if len(args) != arity:
             status[key] = 'not called: arity does not fit the declared parameters'
             continue
+        P = W.P
         last_err = 'no argument generator for ' + ', '.join(render(a) for a in args)
         for attempt in range(run.scale(10, 25)):
             vals = [value_of_type(W, a, attempt, qname.qname, i) for i, a in enumerate(args)]
@@ -1532,6 +1546,8 @@ def signatures(run: Run, W: World):
                 res = P.parse(expr).evaluate(ctx)
             except Exception as e:
                 last_err = 'every attempt raised, last: ' + err_text(e)
+                if err_text(e) == 'E:FONS0005' and P is W.P:
+                    P = W.XPath31Parser(base_uri='http://example.com/base/')     # a static base URI for this signature
                 continue
             called += 1
             status[key] = 'called'
@@ -2012,6 +2028,8 @@ def translate(run: Run) -> dict:
            f'  anyURI := {names.index("xs:anyURI")}',
            f'  intCls := {L.val_cls.index(int)}',
            f'  untypedCls := {L.val_names.index("UntypedAtomic")}',
+           f'  anyAtomic := {names.index("xs:anyAtomicType")}',
+           f'  integer := {names.index("xs:integer")}',
            '  castRows := [' + ', '.join(lean_list(r) for r in cast_rows()) + ']',
            '',
            '/-- the specification\'s view: an XSD 1.0 processor does not know the XSD 1.1-only types -/',
